@@ -312,10 +312,15 @@ func init() {
 		Opts: []HarnessOpt{{Prefix: "VH_C09_", Mode: "U", IfConv: false, MaxUnwind: 80, MaxSteps: 200_000_000}},
 		Rule: "one evaluation = one explored path of a pair (Go kernel, proj4js original): the JavaScript source is parsed and evaluated symbolically by an ES5-subset interpreter written in Go (itself executed by the symbolic executor), on the same symbolic arguments as the Go function; non-trivial = path ends with the equality discharged",
 		Bounds: map[string]string{
-			"pairs": "common.go kernels against proj4js-2.3.12/lib/common/*.js: e0fn e1fn e2fn e3fn sign adjust_lon adjust_lat asinz msfnz tsfnz qsfnz mlfn phi2z imlfn; the ellipsoid, datum, prime-meridian and unit tables against lib/constants/*.js",
+			"pairs": "common.go kernels against proj4js-2.3.12/lib/common/*.js: e0fn e1fn e2fn e3fn sign adjust_lon adjust_lat asinz msfnz tsfnz qsfnz mlfn phi2z imlfn; the ellipsoid, datum, prime-meridian and unit tables against lib/constants/*.js; TMerc (constructor, forward, inverse), Merc (forward, inverse), forward of LCC/AEA/EqdC and inverse of EqdC against projections/*.js (init/forward/inverse on a `this` object carrying the same parameter values); SR.getDatum, geocentric_to_wgs84, geocentric_from_wgs84, geodetic_to_geocentric against datum.js",
 			"loops": "iteration loops unrolled to the code's own caps (phi2z 16, imlfn 15)",
+			"parameters": "every projection parameter a free finite non-zero double, sphere and ellipsoid case; TOWGS84 with 0, 3 or 7 free terms; positions free (Mercator forward: within +-90/+-180 degrees; geodetic_to_geocentric: |lat| <= pi/2, non-zero height)",
 		},
-		Assumptions: []string{"mode U: +,-,*,/ and Math.*/math.* are the same uninterpreted functions on both sides (JS numbers and Go float64 are both IEEE doubles)"},
-		Outside:     []string{"the projection files (init/forward/inverse of merc, lcc, aea, eqdc, tmerc, utm, krovak, longlat), datum.js, datum_transform.js, transform.js: their JS uses object state and is not yet paired with the Go closures", "the 0.1 mm / 5 mm numeric agreement (libm-dependent; no SMT theory decides it)"},
+		Assumptions: []string{
+			"mode U: +,-,*,/ and Math.*/math.* are the same uninterpreted functions on both sides (JS numbers and Go float64 are both IEEE doubles); x*1 = x/1 = x",
+			"Mercator: the eccentricity stored in the SR is the value merc.js derives from b/a",
+			"failure signalling (Go error vs JS null / number / -9999 / NaN coordinate) is compared as a candidate: reported when the native run of the same input shows the mismatch",
+		},
+		Outside: []string{"inverses of LCC and AEA, geocentric_to_geodetic (not decided within 5 minutes each), utm, krovak, longlat, deriveConstants.js, datum_transform.js, transform.js", "zero-valued parameters (proj4js treats them as absent)", "the 0.1 mm / 5 mm numeric agreement as such (libm-dependent; no SMT theory decides it)"},
 	})
 }
